@@ -576,8 +576,9 @@ where
         // add the new element in the qp vector as the last in the heap
         self.store.qp.push(Position(i));
         self.store.heap.push(Index(i));
-        self.bubble_up(Position(i), Index(i));
+        // the store must be consistent before comparing priorities (user code)
         self.store.size += 1;
+        self.bubble_up(Position(i), Index(i));
         None
     }
 
